@@ -81,7 +81,8 @@ def run(tier, chk):
     for t in c05.sharing_trees(rnd, 800 if quick else 8000):
         v = dict(t, a=list(reversed(t['a']))) if t['o'] in AC else {'k': 'none'}
         pairs.append([t, v])
-    seg = segment_twin_trees(rnd, 300 if quick else 3000) + cancelling_sum_trees(rnd, 600 if quick else 6000)
+    seg = (segment_twin_trees(rnd, 300 if quick else 3000) + cancelling_sum_trees(rnd, 600 if quick else 6000)
+           + slice_merge_trees(rnd, 300 if quick else 3000))
     if quick and len(pairs) > 30000:
         rnd.shuffle(pairs)
         pairs = pairs[:30000]
@@ -153,6 +154,34 @@ def cancelling_sum_trees(rnd, n):
     return out
 
 
+def slice_merge_trees(rnd, n):
+    """concatenations in which adjacent slices of one source merge (into the whole source or a wider slice) next to other parts;
+    the result must be stable when a fresh copy of it is simplified again, and x ^ x' (x' = the same value with the slices spelled
+    as one) must simplify alike in both operand orders"""
+    out = []
+    while len(out) < n:
+        src = {'k': 'id', 'w': 32, 'n': rnd.choice(['x32', 'y32'])}
+        oth = rnd.choice([{'k': 'id', 'w': 32, 'n': 'z32'}, {'k': 'int', 'w': 32, 'v': core.limbs(rnd.getrandbits(32), 32)}])
+        cut = rnd.choice([8, 16, 24])
+        lo = {'k': 'slice', 'w': cut, 'lo': 0, 'hi': cut, 'a': [src]}
+        hi = {'k': 'slice', 'w': 32 - cut, 'lo': cut, 'hi': 32, 'a': [src]}
+        if rnd.random() < 0.5:       # the merged source in the low half, another part above it
+            e = {'k': 'compose', 'w': 64, 'a': [lo, hi, oth], 's': [[0, cut], [cut, 32], [32, 64]]}
+            v = {'k': 'compose', 'w': 64, 'a': [src, oth], 's': [[0, 32], [32, 64]]}
+        else:
+            e = {'k': 'compose', 'w': 64, 'a': [oth, lo, hi], 's': [[0, 32], [32, 32 + cut], [32 + cut, 64]]}
+            v = {'k': 'compose', 'w': 64, 'a': [oth, src], 's': [[0, 32], [32, 64]]}
+        if rnd.random() < 0.4:
+            # under a commutative operator, with the operands in both orders (an AC variant)
+            o = rnd.choice(['^', '|', '&', '+'])
+            z = {'k': 'id', 'w': 64, 'n': 'z64'}
+            out.append([{'k': 'op', 'w': 64, 'o': o, 'u': 0, 'a': [e, z]}, {'k': 'op', 'w': 64, 'o': o, 'u': 0, 'a': [z, e]}])
+        else:
+            out.append([e, {'k': 'none'}])        # idempotence (a fresh copy of the result simplified again) and seed independence
+        out.append([{'k': 'op', 'w': 64, 'o': '^', 'u': 0, 'a': [e, v]}, {'k': 'op', 'w': 64, 'o': '^', 'u': 0, 'a': [v, e]}])
+    return out
+
+
 def segment_twin_trees(rnd, n):
     """AC operators whose operands are memory cells that differ ONLY in their segment selector (same address, same size),
     directly or inside an address; the variant is the reversed operand list"""
@@ -162,8 +191,16 @@ def segment_twin_trees(rnd, n):
     while len(out) < n:
         w = rnd.choice([8, 32, 32])
         addr = {'k': 'id', 'w': 32, 'n': rnd.choice(['x32', 'y32'])}
-        if rnd.random() < 0.4:
+        r = rnd.random()
+        if r < 0.3:
             addr = {'k': 'op', 'w': 32, 'o': '+', 'u': 0, 'a': [addr, {'k': 'int', 'w': 32, 'v': core.limbs(rnd.choice([4, 8, 0x1000]), 32)}]}
+        elif r < 0.6:
+            # an address the simplifier has to rewrite (constant first, nested sum): the rebuilt cell must keep its selector
+            c4 = {'k': 'int', 'w': 32, 'v': core.limbs(rnd.choice([4, 8, 0x1000]), 32)}
+            other = {'k': 'id', 'w': 32, 'n': 'z32'}
+            addr = rnd.choice([{'k': 'op', 'w': 32, 'o': '+', 'u': 0, 'a': [c4, addr]},
+                               {'k': 'op', 'w': 32, 'o': '+', 'u': 0, 'a': [{'k': 'op', 'w': 32, 'o': '+', 'u': 0, 'a': [addr, c4]}, other]},
+                               {'k': 'op', 'w': 32, 'o': '+', 'u': 0, 'a': [other, addr]}])
         segs = rnd.sample([None, 'es', 'ds', 'fs', 'gs', 'ss', 'cs'], rnd.choice([2, 2, 3, 4]))
         args = [cell(w, sg, addr) for sg in segs]
         if rnd.random() < 0.4:
